@@ -27,6 +27,8 @@ enum Op {
   OP_CAT_VALUE, OP_CAT_DEFAULT, OP_CAT_COPY, OP_CAT_MOVE,        // construct_at(p, int) / (p) / (p, const T&) / (p, T&&)
   OP_CAT_ARR_MOVE, OP_CAT_ARR_COPY, OP_CAT_ARR_DEFAULT,          // construct_at on array types
   OP_RELOC_AT,
+  OP_CAT_ARGS,     // construct_at(p, args...) for every shape of argument pack (argforms.hpp)
+  OP_VEC_EMPLACE,  // the same packs through emplace_back / emplace of the library's vectors
   OP_COUNT
 };
 inline const char *op_name(int op) {
@@ -38,7 +40,7 @@ inline const char *op_name(int op) {
       "destroy", "destroy_n", "destroy_at", "destroy_at.array",
       "construct_at.value", "construct_at.default", "construct_at.copy", "construct_at.move",
       "construct_at.array_move", "construct_at.array_copy", "construct_at.array_default",
-      "relocate_at"};
+      "relocate_at", "construct_at.args", "vector.emplace"};
   return names[op];
 }
 
